@@ -281,6 +281,36 @@ func emitNonrevAttacks(g *Rng, kp *KeyPair, ir *issuerRev, cred *gabi.Credential
 			emit(nrOp(kp, t3, ctx, nonce, "nr-transplanted", "reject"))
 		}
 	}
+	// forged non-revocation part: C_r = C_u = 0 make every reconstructed commitment 0, whatever the
+	// accumulator: a holder whose value was REMOVED "proves" non-revocation against the newest
+	// accumulator. (The cheating prover picks a short randomiser for the revocation attribute.)
+	{
+		na, _, err := ir.acc.Remove(kp.sk, cred.NonRevocationWitness.E, ir.events[len(ir.events)-1])
+		if err == nil {
+			na.Time = ir.t + 3
+			sacc, _ := na.Sign(kp.sk)
+			plain := &gabi.Credential{Signature: cred.Signature, Pk: cred.Pk, Attributes: cred.Attributes}
+			b, err := plain.CreateDisclosureProofBuilder([]int{1}, nil, false)
+			if err != nil {
+				panic(err)
+			}
+			_, _, attrRand := b.VerifRandomizers()
+			revIdx := 2
+			attrRand[revIdx] = g.bits(500)
+			contribs, err := b.Commit(map[string]*big.Int{"secretkey": g.exactBits(592)})
+			if err != nil {
+				panic(err)
+			}
+			z := bi(0)
+			contribs = append(contribs, z, z, na.Nu, z, z, z)
+			c := gabi.VerifCreateChallenge(ctx, nonce, contribs, false)
+			fp := b.CreateProof(c).(*gabi.ProofD)
+			tf := proofDTree(fp)
+			tf["nonrev_proof"] = T{"C_r": I(z), "C_u": I(z), "responses": T{"beta": I(bi(1)), "delta": I(bi(1)), "epsilon": I(bi(1)), "zeta": I(bi(1))},
+				"sacc": saccTree(&revocation.SignedAccumulator{Data: sacc.Data, PKCounter: sacc.PKCounter})}
+			emit(nrOp(kp, tf, ctx, nonce, "nr-forged-zero-commitments", "reject").with("fkey", "C11/nonunit-commitments"))
+		}
+	}
 	// non-revocation part dropped
 	{
 		t2 := cloneTree(tree).(T)
